@@ -21,7 +21,11 @@ class Carry:
         self.name, self.chains = name, {}
 
     def add(self, chain, label):
-        self.chains.setdefault(tuple(chain), label)
+        cur = self.chains.get(tuple(chain))
+        if cur is None:
+            self.chains[tuple(chain)] = label
+        elif label not in cur.split(" ;; "):
+            self.chains[tuple(chain)] = cur + " ;; " + label        # the same part handed out for different reasons (causes)
 
     def rule(self, needs_arg=None):
         """ret rule for taint.PathTaint: marks the carried parts of the call's result (if the argument test passes)"""
@@ -199,9 +203,18 @@ class Analysis:
             fl = pt.run(extra_declass=extra_declass)
             self.n_guard += pt.solver_queries
             if r.status == "return" and r.ret is not None:
-                for chain, lab in leaves(pt, r.ret):
+                lv = leaves(pt, r.ret)
+                if lv:
+                    # WHEN the function hands the secret out: the calls whose failure this path depends on (or a plain condition)
+                    def is_result(v):
+                        ks = [k for k in v._kids if isinstance(k, tuple) and k[0] == "v"]
+                        return bool(ks) and all(k[1] in ("Ok", "Err") for k in ks) or ("Result<" in (v.ty or ""))
+                    failing = sorted({e.callee.split("::")[-1] for e in r.events if e.kind in ("call", "await") and isinstance(e.ret, Sym) and is_result(e.ret)
+                                      and check_sat(r.pc + [e.ret.discr() != 1], 5000)[0] == "unsat"})
+                    cause = "+".join(failing) if failing else "condition"
+                for chain, lab in lv:
                     vn = variant_names(chain)
-                    carry.add(chain, lab if "carried" in lab else "%s carried in %s()'s %s" % (lab, name, vn or "result"))
+                    carry.add(chain + (("cause", cause),) if False else chain, lab if "carried" in lab else "%s carried in %s()'s %s[%s]" % (lab, name, vn or "result", cause))
             seen = set()
             for f in fl:
                 k = (f.sink, f.label)
@@ -374,15 +387,17 @@ def check(rep, tier, seed):
 
     # ---- report ----
     by_key = {}
-    for f in A.flows:
-        sink = f.sink.split("::")[-1]
-        carrier = "direct"
-        m = re.search(r"carried in (\S+?)\(\)'s (\S+)", f.label)
-        if m:
-            carrier = "%s.%s" % (m.group(1).split("::")[-1], m.group(2))
-        what = "key-document" if "document" in f.label else "key-value"
-        key = "C12.leak:%s:%s:%s->%s" % (what, carrier, f.unit.split("[")[0].split("::")[-1].strip(), sink)
-        by_key.setdefault(key, []).append(f)
+    for f0 in A.flows:
+        for lab in f0.label.split(" ;; "):
+            f = taint.Flow(lab, f0.sink, f0.site, f0.unit, f0.path_index, f0.detail)
+            sink = f.sink.split("::")[-1]
+            carrier = "direct"
+            m = re.search(r"carried in (\S+?)\(\)'s (\S+)", f.label)
+            if m:
+                carrier = "%s.%s" % (m.group(1).split("::")[-1], m.group(2))
+            what = "key-document" if "document" in f.label else "key-value"
+            key = "C12.leak:%s:%s:%s->%s" % (what, carrier, f.unit.split("[")[0].split("::")[-1].strip(), sink)
+            by_key.setdefault(key, []).append(f)
     for key, fl in sorted(by_key.items()):
         f = fl[0]
         detail = "%s reaches %s in %s (path %d, site %s); %d path(s)" % (f.label, f.sink, f.unit, f.path_index, f.site, len(fl))
